@@ -13,6 +13,7 @@
   30 valid programs and their mutations, 15 raw text / raw bytes.
 -/
 import Arrai.C10.Fuzz
+import Arrai.C10.ModelGen
 
 namespace Arrai.C10
 open Arrai
@@ -45,10 +46,10 @@ def corpus (thorough : Bool) : List Case :=
     good 42 "//encoding.json.encode({1: 2})", good 43 "//bits.set(1.5)", good 44 "{|@| (0)} <&> {|@item| (5)}",
     good 45 "{(@: 1, @value: 2), (@: 1, @value: 3)} orderby \\x 1", good 46 "{1: 2} <&> 3", good 47 "3 < (@neg: (@neg: 1))",
     good 48 "{1, 2} => \\x \\y x < y", good 49 "//seq.split([[1], [2, 3]])([1, , 3])", good 50 "{|@, @char| (0, 'a')}",
-    kf 110 "KF-pinned-panics" "cond {(a: 1)} {{(a: 1)}: 1, _: 2}",
+    kf 110 "KF-setpattern-panic" "cond {(a: 1)} {{(a: 1)}: 1, _: 2}", kf 111 "KF-setpattern-panic" "let {[x], 2} = {[1], 2}; x",
     kf 100 "KF-pinned-panics" "(@: 1, @char: \"x\")", kf 101 "KF-pinned-panics" "(@: {}, @char: 65)",
     kf 102 "KF-pinned-panics" "(@: {}, @item: 2)", kf 103 "KF-pinned-panics" "{(@: \"x\", @char: 1)}",
-    kf 104 "KF-pinned-panics" "let x = {(y: 0, z: 2), (y: 0, z: 3)}; cond x { {(:y, :z), ...}: 2 * y }",
+    kf 104 "KF-setpattern-panic" "let x = {(y: 0, z: 2), (y: 0, z: 3)}; cond x { {(:y, :z), ...}: 2 * y }",
     kf 105 "KF-function-as-set" "//rel.union(\\x x)", kf 106 "KF-function-as-set" "(\\x x) count",
     kf 107 "KF-function-as-set" "1 <: //seq.concat", kf 108 "KF-relation-bucket" "{('a, b': 1), (a: 1, b: 2)}",
     kf 109 "KF-grammar-parse" "//grammar.parse(3)",
@@ -64,7 +65,14 @@ def corpus (thorough : Bool) : List Case :=
 def genCase (idx : Nat) : Gen Case := do
   let id := s!"C10-{idx}"
   let r ← rand 100
-  if r < 35 then
+  if r < 18 then
+    -- modelled stream: the class is the decidable predicate `trig`, the model column the outcome class of `eval`
+    let d ← rand 3
+    let e ← genE d
+    let m := run e
+    pure (mkCase id ("model/" ++ (match m with | .ok _ => "value" | .err => "error" | .panic _ => "panic"))
+      (findingOf e) "outcome" e.src m.obs)
+  else if r < 35 then
     let d ← rand 3
     let (s, k, used) ← genOpExpr d
     let (s, xy) ← bindXY s
